@@ -128,6 +128,12 @@ func (m *Model) Apply(op Op) {
 		m.data(op.N)
 	case OpRFB, OpRFF, OpRFL:
 		m.data(op.N)
+	case OpOW, OpOWS, OpORF:
+		// refused; like an empty Write it may or may not commit status and headers (net/http and nbio
+		// both call WriteHeader(200) before they compare with the declared length)
+		if m.Level == 0 {
+			m.Level = 1
+		}
 	case OpRFX:
 		// a segment without bytes is like an empty Write: an http.ResponseWriter may or may not
 		// commit the status and the headers on it (net/http's ReadFrom does, io.Copy of nothing does not)
@@ -148,6 +154,13 @@ func (m *Model) DeclaredCL() int {
 		return n
 	}
 	return -1
+}
+
+// CLInForce: a positive Content-Length was declared before anything was committed and the handler
+// asked for neither chunked framing nor trailers (which override it): the response is
+// identity-framed with that length whatever the request version, and writing more is an overrun.
+func (m *Model) CLInForce() bool {
+	return m.DeclaredCL() > 0 && m.CLLevel == 0 && m.HdrZ["Trailer"] == "" && m.HdrZ["Transfer-Encoding"] == ""
 }
 
 // Remaining returns how many body bytes the handler may still write without contradicting its
@@ -425,6 +438,20 @@ func judgeWith(m *Model, r *Result, partial, patch10 bool) (vs []Verdict, patche
 	for i, op := range r.Prog.Ops {
 		or := r.Ops[i]
 		switch op.K {
+		case OpOW, OpOWS, OpORF:
+			kind := "write"
+			if op.K == OpORF {
+				kind = "readfrom"
+			}
+			switch {
+			case or.Err == "":
+				add(kind+"-overrun-accepted", "op %d %s at body offset %d: %d bytes where the declared Content-Length leaves room for fewer; returned n=%d and no error", i, op, off, op.N, or.N)
+			case or.Err != http.ErrContentLength.Error() || or.N != 0:
+				add(kind+"-overrun-wrong-result", "op %d %s at body offset %d returned n=%d, error %q; want 0, %q", i, op, off, or.N, or.Err, http.ErrContentLength.Error())
+			}
+			if or.Wire1 != or.Wire0 {
+				add(kind+"-overrun-emitted", "op %d %s at body offset %d put %d bytes on the wire", i, op, off, or.Wire1-or.Wire0)
+			}
 		case OpW, OpWS, OpRFB, OpRFF, OpRFL, OpRFX:
 			kind := "write"
 			if op.K != OpW && op.K != OpWS {
